@@ -367,16 +367,20 @@ class LDA:
                     ext[d] = o._ext[d]
                     co[d] = o._coords.get(d)
             return LDA((op, self.val, o.val), dims, ext, co, self.lazy or o.lazy, "fresh", None, self.cplx or o.cplx)
-        if isinstance(o, (int, float)) and type(o) is not bool:
-            return self._new((op, self.val, o))
+        if isinstance(o, (int, float, _np.integer, _np.floating)) and type(o) is not bool:
+            return self._new((op, self.val, float(o)))
         if isinstance(o, _xr.DataArray) and o.ndim == 0:
             # placeholder parameters such as xr.DataArray(name="mean_") never take part when the option is off
             raise Unsupported("arithmetic with an unset (placeholder) parameter")
         return NotImplemented
 
+    __array_priority__ = 1000          # numpy scalars defer to the proxy's reflected operators
+
     def __sub__(self, o): return self._bin(o, "-")
     def __add__(self, o): return self._bin(o, "+")
+    __radd__ = __add__
     def __mul__(self, o): return self._bin(o, "*")
+    __rmul__ = __mul__
     def __truediv__(self, o): return self._bin(o, "/")
     def __and__(self, o): return self._bin(o, "&")
     def __invert__(self): return self._new(("~", self.val))
